@@ -134,3 +134,12 @@ package verifspec
 //@   ensures len(s) > 2 ==> result == s[2]
 //@ func st.Bad_StrIndex
 //@ property S01
+
+//@ extern st.runIt
+//@   param f
+//@ func st.Bad_ClosureArg
+//@ property S01
+//@   ensures result == 1
+//@ func st.Ok_ClosureArg
+//@ property S01
+//@   ensures result == 5
